@@ -27,8 +27,13 @@ inductive Err | none | eof | limit | other
   deriving DecidableEq, Repr
 
 /-- what the underlying reader (the request body below the middleware) does on its next `Read`:
-    hand out up to `k` bytes (at least one), return `(0, nil)`, or fail with a non-EOF error -/
-inductive Step | data (k : Nat) | zero | fail
+    hand out up to `k` bytes (at least one), return `(0, nil)`, fail with a non-EOF error, or hand out bytes and fail -/
+inductive Step
+  | data (k : Nat)
+  | zero
+  | fail
+  /-- hand out up to `k` bytes (at least one) TOGETHER with a non-EOF error (`(n > 0, err)`, which io.Reader allows) -/
+  | dataFail (k : Nat)
   deriving DecidableEq, Repr
 
 /-- underlying reader: the bytes still to come, the per-call script (once it is used up a call
@@ -51,6 +56,9 @@ def Under.read (u : Under) (cap : Nat) : Bytes × Err × Under :=
   else match u.script with
     | .zero :: rest => ([], .none, { u with script := rest })
     | .fail :: rest => ([], .other, { u with script := rest })
+    | .dataFail k :: rest =>
+      let n := min (min cap (max k 1)) u.rem.length
+      (u.rem.take n, .other, { u with rem := u.rem.drop n, script := rest })
     | _ =>
       let n := min (chunkOf u cap) u.rem.length
       (u.rem.take n,
